@@ -50,6 +50,7 @@ type spec struct {
 	LockHelpers map[string]string // helper function -> lock it takes / releases
 	LockIgnore  []string          // exported entry points that goom's own packages never call
 	A64Table bool // emit the arm64 decode table
+	X86Table bool // emit the x86 decoding program and the decodeOp numbering
 	MethodCallers map[string][3]string // name -> (type's package suffix, type, method): functions of this package that call it
 }
 
@@ -89,6 +90,7 @@ var specs = []spec{
 	{Out: "LocksMemory", Arch: "amd64", Pkg: "./internal/bytecode/memory", Locks: map[string][]string{"memory_writes": {"call:mProtectCrossPage", "call:copy", "call:writeTo"}}},
 	{Out: "UnpatchCallersRoot", Arch: "amd64", Pkg: ".", MethodCallers: map[string][3]string{"root_guard_unpatch": {"internal/patch", "Guard", "Unpatch"}}},
 	{Out: "UnpatchCallersProxy", Arch: "amd64", Pkg: "./internal/proxy", MethodCallers: map[string][3]string{"proxy_guard_unpatch": {"internal/patch", "Guard", "Unpatch"}}},
+	{Out: "X86Table", Arch: "amd64", Pkg: "./internal/arch/x86asm", X86Table: true},
 	{Out: "A64Table", Arch: "amd64", Pkg: "./internal/arch/arm64asm", A64Table: true},
 	{Out: "Page", Arch: "amd64", Pkg: "./internal/bytecode/memory", Funcs: []string{"PageStart"}, Loops: []string{"mProtectCrossPage"}, Shapes: []string{"WriteTo"}},
 }
@@ -146,7 +148,7 @@ func runSpec(repo, out string, sp spec) result {
 	if len(sp.Shapes) > 0 {
 		sb.WriteString("From Goom Require Import Model.WriteTo.\n")
 	}
-	if len(sp.Orders) > 0 || sp.Erro || len(sp.Pure) > 0 || len(sp.Lits) > 0 || len(sp.Locks) > 0 || len(sp.MethodCallers) > 0 || sp.A64Table {
+	if len(sp.Orders) > 0 || sp.Erro || len(sp.Pure) > 0 || len(sp.Lits) > 0 || len(sp.Locks) > 0 || len(sp.MethodCallers) > 0 || sp.A64Table || sp.X86Table {
 		sb.WriteString("From Coq Require Import String.\nOpen Scope string_scope.\n")
 	}
 	sb.WriteString("Open Scope Z_scope.\n\n")
@@ -293,6 +295,15 @@ func runSpec(repo, out string, sp spec) result {
 			}
 			sb.WriteString(s)
 			res.OK = append(res.OK, n)
+		}
+	}
+	if sp.X86Table {
+		s, err := trX86Table(pkg)
+		if err != nil {
+			res.Failed["decoder"] = err.Error()
+		} else {
+			sb.WriteString(s)
+			res.OK = append(res.OK, "decoder")
 		}
 	}
 	if sp.A64Table {
